@@ -34,14 +34,19 @@ def draw_sites(ctx, sd: Seeds, f: Func):
                 out.append((n, "method", recv))
             elif isinstance(recv, ast.Subscript) and isinstance(recv.value, ast.Name) and recv.value.id in lists:
                 out.append((n, "method", recv))
+            elif isinstance(recv, ast.Call) and sd.is_stream_call(f, recv):
+                out.append((n, "method", recv))
         elif dn in ("np.random.seed", "numpy.random.seed", "random.seed"):
             out.append((n, "seed", None))
     return out, streams, lists
 
 
-def stream_ok(f: Func, e, streams, lists) -> bool:
+def stream_ok(f: Func, e, streams, lists, sd=None) -> bool:
     if e is None:
         return False
+    if isinstance(e, ast.Call) and sd is not None and sd.is_stream_call(f, e):
+        # converted in place: to_stream(<seed parameter or stream>)
+        return not e.args or stream_ok(f, e.args[0], streams, lists, sd) or isinstance(e.args[0], ast.Call)
     if isinstance(e, ast.Name):
         return e.id in streams or (e.id in f.params and is_seedish(e.id))
     if isinstance(e, ast.Attribute):
@@ -77,7 +82,7 @@ def run(ctx, rep):
         for node, kind, s in sites:
             if kind in ("rvs", "method"):
                 n_draw += 1
-                if stream_ok(f, s, streams, lists):
+                if stream_ok(f, s, streams, lists, sd):
                     rep.holds("G1", f, node, "stream <- %s" % unparse(s), node=node)
                 elif kind == "rvs" and s is None:
                     hint = ""
